@@ -104,7 +104,8 @@ META = dict(
          "heuristic's bookkeeping are compositions of machine steps and inherit the invariants whatever the random choices were "
          "(tryRemoveJob_inv, tryRemoveRoute_inv, processWith_inv, processWith_finalized, tryRemoveJob_locked_refused, dropEmpty_reg); a "
          "strict lock's block stays contiguous under every insertion Rule::can_insert admits, for every position kind, and under removal of "
-         "any other job (strict_block_survives_insert, strict_block_survives_removal); a child is a value, so the parent is unchanged in "
+         "any other job (strict_block_survives_insert, strict_block_survives_removal), and so the pin verdict the driver evaluates on real tours "
+         "is stable under exactly those moves (pinTourB_strict_insert, pinTourB_strict_removal); a child is a value, so the parent is unchanged in "
          "the model. Tie 1 (correspondence): on elementary-step traces of the REAL tracker / restore / process functions the machine model "
          "reproduces the real bookkeeping after every call (0 disagreements required). Tie 2 (oracles): long random histories over EVERY shipped search operator on the real code; after every step the Lean "
          "predicates (partition over required/ignored/unassigned/routes, registry = fleet minus used actors, tour job sets, whole multi-jobs "
